@@ -6,6 +6,7 @@ import (
 	"fmt"
 	"os"
 	"path/filepath"
+	"sync"
 	"sync/atomic"
 	"syscall"
 	"testing"
@@ -258,6 +259,101 @@ func sharedSweep(t *testing.T, n uint32, idx int) {
 	}
 }
 
+// ---------------------------------------------------------------------------
+// concurrent draws with different bounds: a draw's result depends only on its
+// own bound and the words it read
+
+type cyclicReader struct {
+	words []uint32
+	i     uint64
+}
+
+func (r *cyclicReader) Read(p []byte) (int, error) {
+	k := atomic.AddUint64(&r.i, 1)
+	w := r.words[k%uint64(len(r.words))]
+	if len(p) >= 4 {
+		binary.BigEndian.PutUint32(p, w)
+		return 4, nil
+	}
+	for i := range p {
+		p[i] = byte(w >> (8 * uint(3-i)))
+	}
+	return len(p), nil
+}
+
+type c01Conc struct {
+	N1, N2 uint32
+	Key    uint64
+}
+
+func c01ConcRun(c c01Conc) error {
+	if c.N1 == 0 || c.N2 == 0 {
+		return &ev.Skip{Why: "n=0"}
+	}
+	// the source hands out words from a small set W, in arbitrary interleaving;
+	// whatever the interleaving, a draw with bound n must return the
+	// single-threaded result of SOME word of W that n accepts
+	var W []uint32
+	rej1, _ := findRejected(c.N1, c.Key)
+	rej2, _ := findRejected(c.N2, c.Key^1)
+	W = append(W, rej1...)
+	W = append(W, rej2...)
+	x := c.Key
+	for len(W) < 8 {
+		x = ev.Mix64(x, uint64(len(W)))
+		W = append(W, uint32(x>>7))
+	}
+	allowed := func(n uint32) (map[uint32]bool, bool) {
+		m := map[uint32]bool{}
+		for _, w := range W {
+			res, consumed, ok := enum.Probe(n, w, 4*66)
+			if ok && consumed == 4 {
+				m[res] = true
+			}
+		}
+		return m, len(m) > 0
+	}
+	a1, ok1 := allowed(c.N1)
+	a2, ok2 := allowed(c.N2)
+	if !ok1 || !ok2 {
+		return &ev.Skip{Why: "no accepted word in the set"}
+	}
+	rd := &cyclicReader{words: W}
+	old := rand.Reader
+	oldO := spg.VerifDrawObserver
+	rand.Reader = rd
+	spg.VerifDrawObserver = nil
+	defer func() { rand.Reader = old; spg.VerifDrawObserver = oldO }()
+	var bad atomic.Value
+	var wg sync.WaitGroup
+	run := func(n uint32, ok map[uint32]bool) {
+		defer wg.Done()
+		defer func() {
+			if r := recover(); r != nil {
+				bad.Store(fmt.Sprintf("panic: %v", r))
+			}
+		}()
+		for i := 0; i < 20000 && bad.Load() == nil; i++ {
+			if r := spg.VerifRandomUint32n(n); !ok[r] {
+				bad.Store(fmt.Sprintf("a draw with bound %d returned %d while another goroutine drew with bound %d; no word the source handed out (%#x) gives that result for bound %d on its own", n, r, c.N1^c.N2^n, W, n))
+				return
+			}
+		}
+	}
+	wg.Add(4)
+	go run(c.N1, a1)
+	go run(c.N2, a2)
+	go run(c.N1, a1)
+	go run(c.N2, a2)
+	wg.Wait()
+	if v := bad.Load(); v != nil {
+		return fmt.Errorf("%s", v.(string))
+	}
+	ev.Class("concurrent_bounds_checked")
+	ev.NonTrivial(fmt.Sprintf("conc|%d|%d", c.N1, c.N2))
+	return nil
+}
+
 var smallBounds = []uint32{3, 5, 6, 7, 10, 12, 26, 36, 52, 55, 62, 68, 94, 1000, 10129, 18325, 65535, 65537}
 
 func c01Bounds() (shared []uint32, solo []uint32) {
@@ -465,6 +561,19 @@ func TestC01(t *testing.T) {
 		return
 	}
 	ev.Check(t, "c01_sampled", ev.N(40000, 2000000), c01Gen, c01Run)
+	ev.Check(t, "c01_concurrent", ev.N(160, 3200), func(t *rapid.T) c01Conc {
+		pick := func(l string) uint32 {
+			switch rapid.IntRange(0, 3).Draw(t, l+"_class") {
+			case 0:
+				return uint32(rapid.IntRange(3, 300).Draw(t, l+"_small")) | 1
+			case 1:
+				return rapid.SampledFrom([]uint32{10, 10129, 18325, 1<<31 + 1, 3 << 30, 0xAAAAAAAB, 1<<32 - 1}).Draw(t, l+"_named")
+			default:
+				return rapid.Uint32Range(3, 1<<32-1).Draw(t, l+"_any")
+			}
+		}
+		return c01Conc{N1: pick("n1"), N2: pick("n2"), Key: rapid.Uint64().Draw(t, "key")}
+	}, c01ConcRun)
 	if ev.Cfg.Replay != "" {
 		ev.Check(t, "c01_sweep", 1, nil, soloSweep)
 		return
